@@ -149,8 +149,10 @@ def check_C19(tier):
         simple.append(("concat", dict(op="concat", files=fl, out="res/cat.txt"), files, fl))
         simple.append(("filesource", dict(op="filesource", files=fl), files, fl))
         simple.append(("paramsource", dict(op="paramsource", values=[os.path.basename(x) for x in fl]), {}, [os.path.basename(x) for x in fl]))
-    tree = {"t/a1.txt": "x", "t/a2.txt": "x", "t/b1.csv": "x", "t/sub/a3.txt": "x", "t/sub/c.txt": "x", "t/a10.txt": "x"}
-    for pats in (["t/*.txt"], ["t/a?.txt"], ["t/*/*.txt", "t/*.csv"], ["t/nothing*"], ["t/[ab]1.*"]):
+    tree = {"t/a1.txt": "x", "t/a2.txt": "x", "t/b1.csv": "x", "t/sub/a3.txt": "x", "t/sub/c.txt": "x", "t/a10.txt": "x", "t/sub/deeper/z.txt": "x"}
+    entries = set(tree) | {p.rsplit("/", k)[0] for p in tree for k in range(1, p.count("/") + 1)}     # files and directories
+    for pats in (["t/*.txt"], ["t/a?.txt"], ["t/*/*.txt", "t/*.csv"], ["t/nothing*"], ["t/[ab]1.*"],
+                 ["t/*"], ["t/s*"], ["t/*/*"], ["t/su?", "t/sub/deeper/*"]):     # patterns that (also) match directories
         simple.append(("glob", dict(op="glob", patterns=pats), tree, pats))
     lines = ["alpha", "beta gamma", "", "delta"]
     simple.append(("f2p", dict(op="f2p", path="in/params.txt"), {"in/params.txt": "".join(l + "\n" for l in lines)}, lines))
@@ -181,7 +183,7 @@ def check_C19(tier):
         elif kind == "glob":
             exp = []
             for pat in want:
-                exp += sorted(p for p in tree if __import__("fnmatch").fnmatch(p, pat) and p.count("/") == pat.count("/"))
+                exp += sorted(p for p in entries if __import__("fnmatch").fnmatch(p, pat) and p.count("/") == pat.count("/"))
             if got != exp:
                 chk.violation("FileGlobber with %s emitted %s, expected %s" % (want, got, exp), replay)
         else:
